@@ -61,17 +61,32 @@ func bigWorkload(conc bool) mx.History { return workload(300, 700, true, conc) }
 
 func isBig(h mx.History) bool { return h.Chunk >= 100 }
 
+// drainVariant: the same workload on a sorter with AutoClear set whose caller pulls on after a failed
+// Pull, and clears the sorter and runs a second, healthy cycle after any other failure; every drain
+// that completes is followed by a look into the sorter's directory.
+func drainVariant(h mx.History) mx.History {
+	h.AutoClear, h.Recover, h.PullThrough = true, true, true
+	second := mx.Cycle{Pull: -1}
+	for i := 0; i < h.Chunk+2 && i < 12; i++ {
+		second.Keys = append(second.Keys, (i*5+2)%9)
+	}
+	h.Cycles = append(append([]mx.Cycle(nil), h.Cycles...), second)
+	return h
+}
+
 func workloads() []mx.History {
 	var ws []mx.History
 	for _, conc := range []bool{false, true} {
-		ws = append(ws, bigWorkload(conc))
-		ws = append(ws, workload(2, 5, false, conc), workload(3, 9, true, conc))
+		ws = append(ws, bigWorkload(conc), drainVariant(bigWorkload(conc)))
+		ws = append(ws, workload(2, 5, false, conc), workload(3, 9, true, conc), drainVariant(workload(2, 5, true, conc)))
 		if vlib.Thorough() {
 			ws = append(ws, workload(1, 4, false, conc), workload(4, 8, true, conc), workload(2, 4, true, conc), workload(3, 10, false, conc))
 		}
 	}
 	return ws
 }
+
+const residueAfterDrain = "run-files-left-by-a-drain-with-autoclear"
 
 type runResult struct {
 	out        mx.Outcome
@@ -99,7 +114,17 @@ func execute(h mx.History, faults []sched.Fault, rules []sched.Rule) runResult {
 				done <- runResult{panic: r, sc: sc}
 			}
 		}()
-		out, e := mx.RunWith(h, s, true, func(ev string) *mx.Err { sc.Mark(ev); return nil })
+		out, e := mx.RunWith(h, s, true, func(ev string) *mx.Err {
+			sc.Mark(ev)
+			if h.AutoClear && strings.HasPrefix(ev, "drained") && sc.Count("write-received") == sc.Count("write-return-buffer") {
+				// a drain with AutoClear set has just completed (whatever failed earlier): no run files
+				if fs := s.RunFiles(); len(fs) > 0 {
+					return &mx.Err{Kind: residueAfterDrain, Msg: fmt.Sprintf("after the event %q, with AutoClear set, the sorter's directory still holds %v", ev, fs)}
+				}
+				vlib.Count("autoclear-drains-checked-for-run-files", 1)
+			}
+			return nil
+		})
 		done <- runResult{out: out, err: e, sc: sc}
 	}()
 	var res runResult
@@ -158,6 +183,8 @@ func checkFault(c faultCase) *vlib.Failure {
 		return vlib.Failf("deadlock", "%s: run did not finish; events: %s", what, res.sc.Trace(60))
 	case res.panic != nil:
 		return vlib.Failf("panic", "%s: %v; events: %s", what, res.panic, res.sc.Trace(60))
+	case res.err != nil && res.err.Kind == residueAfterDrain:
+		return vlib.Failf(residueAfterDrain, "%s: %s (first error before that: %v; sabotage applied: %v)", what, res.err.Msg, res.out.FirstError, res.sc.Applied())
 	case res.err != nil:
 		// every call reported success (or the run ended on an error elsewhere) yet the values differ
 		if res.out.FirstError == nil {
@@ -258,6 +285,8 @@ func TestFaultWithSchedule(t *testing.T) {
 					second.Keys = append(second.Keys, (i*5+2)%9)
 				}
 				c.H.Recover = true
+				c.H.AutoClear = rapid.Bool().Draw(t, "auto-clear")
+				c.H.PullThrough = rapid.Bool().Draw(t, "pull-through")
 				c.H.Cycles = append(c.H.Cycles, second)
 				if rapid.Bool().Draw(t, "fault-in-second-cycle") {
 					// the cycle after the failed one fails as well: that failure, too, has to surface
